@@ -263,6 +263,18 @@ def sendOp (d : D) (bytes : Bytes) (own : Option Nat) : D × String :=
       if hasPong a.fx nonce then (d1, s!"{key}={if own.isSome then toString nonce else "ok"} {body}")
       else (d1, s!"{key}=none {body}")
 
+/-- the `close` op: the peer closes the connection and Run returns (or is wedged). -/
+def closeStep (d : D) : D × String :=
+  match d.mode with
+  | .crashed => (d, "dead")
+  | .wedged => (d, s!"run=hung hh=[] st={showFlags d}")
+  | .closed => (d, s!"run=returned hh=[] st={showFlags d} onstop={d.view.onStopCalls} stopped=1 bh={showBh d.view.bh}")
+  | .open_ =>
+    let alts := match d.needAlt with | some l => [l] | none => []
+    let d1 := { d with mode := .closed, needAlt := none }
+    let (d2, tail) := endTail d1
+    (d2, s!"run=returned hh={showAlts alts} st={showFlags d2}{tail}")
+
 def stepLine (d : D) (line : String) : D × String :=
   let ws := splitWords line
   let d := { d with opIdx := d.opIdx + 1 }
@@ -343,16 +355,20 @@ def stepLine (d : D) (line : String) : D × String :=
     else
       let busy := if d.cancelHung && d.mode == .open_ then "?" else b2s d.view.busy
       (d, s!"bh={showBh d.view.bh} onstop={d.view.onStopCalls} busy={busy}")
-  | "close" :: _ =>
-    match d.mode with
-    | .crashed => (d, "dead")
-    | .wedged => (d, s!"run=hung hh=[] st={showFlags d}")
-    | .closed => (d, s!"run=returned hh=[] st={showFlags d} onstop={d.view.onStopCalls} stopped=1 bh={showBh d.view.bh}")
-    | .open_ =>
-      let alts := match d.needAlt with | some l => [l] | none => []
-      let d1 := { d with mode := .closed, needAlt := none }
-      let (d2, tail) := endTail d1
-      (d2, s!"run=returned hh={showAlts alts} st={showFlags d2}{tail}")
+  | "closecancel" :: rest =>
+    -- the peer drops, then (while run() is calling the on-stop function) the request is cancelled: as a history
+    -- of the model this is `close` followed by `CancelBlockRequest` on what the end of the connection left
+    match (kv rest "hdr").bind hexToBytes with
+    | none => (d, "bad-op")
+    | some h =>
+      if d.mode != .open_ || d.cancelHung then
+        let (d', out) := closeStep d
+        (d', s!"started=dead {out}")
+      else
+        let (d1, out) := closeStep d
+        let (v, r) := cancelBlock d1.view (sha256d h)
+        ({ d1 with view := v, base := (cancelBlock d1.base (sha256d h)).1 }, s!"started={b2s r} {out}")
+  | "close" :: _ => closeStep d
   | _ => (d, "bad-op")
 
 def main : IO Unit := do
